@@ -13,10 +13,13 @@ import (
 // the canonical (ClickBench) form the rewrite was written for.
 
 var (
-	uSchemes = []string{"http", "https", "ftp"}
-	uWWW     = []string{"", "www."}
-	uHosts   = []string{"a.b", ""}
-	uTails   = []string{"/p", "/", "", "?q"}
+	// URL components; index 0 is canonical, a component may only be replaced by an earlier one when minimising.
+	// quick uses the first 3/2/2/4 values and no prefix; thorough the full alphabets.
+	uPrefix  = []string{"", "x "}
+	uSchemes = []string{"http", "https", "ftp", "HTTPS", ""} // "" = no scheme and no "://"
+	uWWW     = []string{"", "www.", "wwwx."}
+	uHosts   = []string{"a.b", "", "a.b:80", "ä.b"}
+	uTails   = []string{"/p", "/", "", "?q", "/p/q", "/p?q", "//", "\n/p"}
 
 	pAnchor  = []string{"^", ""}
 	pScheme  = []string{"https?", "https", "(?:https?|ftp)"}
@@ -28,7 +31,7 @@ var (
 )
 
 type urow struct {
-	S, W, H, T int // component indexes, -1 for rows outside the product
+	P, S, W, H, T int // component indexes, S = -1 for rows outside the product
 	Null       bool
 	Text       string
 }
@@ -59,6 +62,7 @@ type urlGrid struct {
 	rows  []urow
 	cases []ucase
 	out   map[ucase]*outcome
+	index map[[5]int]int
 	stat  stats
 	viol  []violation
 }
@@ -68,22 +72,33 @@ func (g *urlGrid) st() *stats   { return &g.stat }
 
 func newURLGrid(quick bool) *urlGrid {
 	g := &urlGrid{out: map[ucase]*outcome{}}
-	for s := range uSchemes {
-		for w := range uWWW {
-			for h := range uHosts {
-				for t := range uTails {
-					g.rows = append(g.rows, urow{S: s, W: w, H: h, T: t, Text: uSchemes[s] + "://" + uWWW[w] + uHosts[h] + uTails[t]})
+	np, ns, nw, nh, nt := 1, 3, 2, 2, 4
+	if !quick {
+		np, ns, nw, nh, nt = len(uPrefix), len(uSchemes), len(uWWW), len(uHosts), len(uTails)
+	}
+	g.index = map[[5]int]int{}
+	for p := 0; p < np; p++ {
+		for s := 0; s < ns; s++ {
+			for w := 0; w < nw; w++ {
+				for h := 0; h < nh; h++ {
+					for t := 0; t < nt; t++ {
+						sep := "://"
+						if uSchemes[s] == "" {
+							sep = ""
+						}
+						g.index[[5]int{p, s, w, h, t}] = len(g.rows)
+						g.rows = append(g.rows, urow{P: p, S: s, W: w, H: h, T: t, Text: uPrefix[p] + uSchemes[s] + sep + uWWW[w] + uHosts[h] + uTails[t]})
+					}
 				}
 			}
 		}
 	}
-	extra := []string{""}
-	if !quick {
-		extra = append(extra, "HTTPS://a.b/p", "a.b/p", "//a.b/p", "https://www.a.b:80/p/q", "http://a.b/p/q", "https://wwwx.a.b/p",
-			"http://www.a.b/p?q", "https://a.b//", "x http://a.b/p", "http://a.b/p http://c.d/q", "https://ä.b/p", "http://a.b\n/p")
+	seenText := map[string]bool{}
+	for _, r := range g.rows {
+		seenText[r.Text] = true
 	}
-	for _, e := range extra {
-		g.rows = append(g.rows, urow{S: -1, Text: e})
+	if !seenText[""] {
+		g.rows = append(g.rows, urow{S: -1, Text: ""})
 	}
 	g.rows = append(g.rows, urow{S: -1, Null: true, Text: "NULL"})
 	for fn := range uFuncs {
@@ -148,11 +163,9 @@ func (g *urlGrid) fails(c ucase, r int) bool {
 	return o != nil && o.differs(r)
 }
 
-func (g *urlGrid) productRow(s, w, h, t int) int {
-	for i, r := range g.rows {
-		if r.S == s && r.W == w && r.H == h && r.T == t {
-			return i
-		}
+func (g *urlGrid) productRow(p, s, w, h, t int) int {
+	if i, ok := g.index[[5]int{p, s, w, h, t}]; ok {
+		return i
 	}
 	return -1
 }
@@ -179,22 +192,25 @@ func (g *urlGrid) shrinks(c ucase, r int) []ucr {
 	}
 	row := g.rows[r]
 	if row.S < 0 {
-		if i := g.productRow(0, 0, 0, 0); i >= 0 && !row.Null {
+		if i := g.productRow(0, 0, 0, 0, 0); i >= 0 && !row.Null {
 			out = append(out, ucr{c, i})
 		}
 		return out
 	}
+	for v := 0; v < row.P; v++ {
+		out = append(out, ucr{c, g.productRow(v, row.S, row.W, row.H, row.T)})
+	}
 	for v := 0; v < row.S; v++ {
-		out = append(out, ucr{c, g.productRow(v, row.W, row.H, row.T)})
+		out = append(out, ucr{c, g.productRow(row.P, v, row.W, row.H, row.T)})
 	}
 	for v := 0; v < row.W; v++ {
-		out = append(out, ucr{c, g.productRow(row.S, v, row.H, row.T)})
+		out = append(out, ucr{c, g.productRow(row.P, row.S, v, row.H, row.T)})
 	}
 	for v := 0; v < row.H; v++ {
-		out = append(out, ucr{c, g.productRow(row.S, row.W, v, row.T)})
+		out = append(out, ucr{c, g.productRow(row.P, row.S, row.W, v, row.T)})
 	}
 	for v := 0; v < row.T; v++ {
-		out = append(out, ucr{c, g.productRow(row.S, row.W, row.H, v)})
+		out = append(out, ucr{c, g.productRow(row.P, row.S, row.W, row.H, v)})
 	}
 	return out
 }
@@ -208,7 +224,7 @@ func (g *urlGrid) signature(c ucase, r int) string {
 	if c.Lower != 0 {
 		sig += "|lowercase-call"
 	}
-	return sig + fmt.Sprintf("|url=%s|duckdb=%s|arc=%s", g.rows[r].Text, quoted(o.Orig[r]), quoted(o.Rew[r]))
+	return strings.ReplaceAll(sig+fmt.Sprintf("|url=%s|duckdb=%s|arc=%s", g.rows[r].Text, quoted(o.Orig[r]), quoted(o.Rew[r])), "\n", `\n`)
 }
 
 func quoted(c cell) string {
@@ -273,7 +289,7 @@ func (g *urlGrid) classes() []violation { return g.viol }
 func (g *urlGrid) coverage() map[string]any {
 	m := g.stat.cov()
 	m["urls"] = len(g.rows)
-	m["url_grammar"] = "{http,https,ftp}://{,www.}{a.b,}{/p,/,,?q} plus '' and NULL (thorough: 12 more shapes)"
+	m["url_grammar"] = "{http,https,ftp}://{,www.}{a.b,}{/p,/,,?q} plus '' and NULL; thorough: {,'x '}{http://,https://,ftp://,HTTPS://,}{,www.,wwwx.}{a.b,,a.b:80,ä.b}{/p,/,,?q,/p/q,/p?q,//,<newline>/p}"
 	m["pattern_grammar"] = "{^,}{https?,https,(?:https?|ftp)}://{(?:www\\.)?,}{([^/]+),([^/]*),([^\\/]+)}{/.*$,.*$,} in REGEXP_REPLACE(url,p,'\\1'|'\\\\1') and REGEXP_EXTRACT(url,p,1), upper and lower case call"
 	m["classes"] = len(g.viol)
 	return m
